@@ -26,7 +26,9 @@ func tlvWithLen(tag byte, lenOctets, content []byte) []byte {
 
 // sigValue draws an r or s value including the out-of-range ones.
 func sigValue(r *gen.Rng) (*big.Int, string) {
-	switch r.Intn(12) {
+	switch r.Intn(13) {
+	case 12:
+		return r.WordStructured(bigN), "word-structured-around-n"
 	case 0:
 		return big.NewInt(0), "0"
 	case 1:
